@@ -160,6 +160,8 @@ type sg struct {
 	multiParams   [2]string         // the names of the two parameters that together are isMulti
 	splitTail     bool              // the classification part of splitRing
 	sortedKeys    map[string]bool   // key slices on which sort.Ints has been called
+	splitWalk     bool              // the first part of splitRing (splitwalk.go)
+	walkN         int               // range-loop bodies emitted as definitions (splitwalk.go)
 	cur           *sgSig
 	n             int
 	loopN         int
@@ -253,7 +255,7 @@ func (g *sg) expr(env *sgEnv, x ast.Expr, binds *[]string) (sgVal, error) {
 			if t == stOpaque {
 				return sgVal{}, fmt.Errorf("the parameter %s may only be passed to a panic helper", x.Name)
 			}
-			if t == stView || t == stCMap || t == stCKeys {
+			if t == stView || t == stCMap || t == stCKeys || t == stOMap || t == stOPair || t == stMultiSet {
 				return sgVal{}, fmt.Errorf("%s may only be indexed / ranged over", x.Name)
 			}
 			return sgVal{code: "v_" + x.Name, ty: t}, nil
@@ -485,12 +487,19 @@ func (g *sg) expr(env *sgEnv, x ast.Expr, binds *[]string) (sgVal, error) {
 			}
 			return sgVal{code: "[" + strings.Join(items, "; ") + "]", ty: stRings}, nil
 		}
+		if ty == stInts && len(x.Elts) != 0 && g.splitWalk {
+			return g.walkIntsLit(env, x, binds)
+		}
 		if ty != stInts || len(x.Elts) != 0 {
 			return sgVal{}, fmt.Errorf("unsupported composite literal")
 		}
 		return sgVal{code: "(@nil Z)", ty: stInts}, nil
 	case *ast.CallExpr:
 		return g.call(env, x, binds)
+	case *ast.SelectorExpr:
+		if g.splitWalk {
+			return g.walkSelector(env, x)
+		}
 	}
 	return sgVal{}, fmt.Errorf("unsupported expression %T", x)
 }
@@ -589,6 +598,11 @@ func sgStaticallyNonNeg(x ast.Expr) bool {
 }
 
 func (g *sg) call(env *sgEnv, x *ast.CallExpr, binds *[]string) (sgVal, error) {
+	if g.splitWalk {
+		if v, handled, err := g.walkCall(env, x, binds); handled {
+			return v, err
+		}
+	}
 	if g.dedup {
 		if v, handled, err := g.dedupCall(env, x, binds); handled {
 			return v, err
@@ -596,8 +610,8 @@ func (g *sg) call(env *sgEnv, x *ast.CallExpr, binds *[]string) (sgVal, error) {
 	}
 	if g.cleanup {
 		if id, ok := x.Fun.(*ast.Ident); ok && id.Name == "splitRing" {
-			// splitRing(ring, isOuter, hitMultiple, ringIdx): the model's splitRing; (hitMultiple, ringIdx) only
-			// decide which vertices count as hit by several rings = the model's predicate isMulti
+			// splitRing(ring, isOuter, hitMultiple, ringIdx): the regenerated gen_splitRing of SplitWalkGen.v (splitwalk.go);
+			// (hitMultiple, ringIdx) only decide which vertices count as hit by several rings = the predicate isMulti
 			if _, shadow := env.vars[id.Name]; shadow || g.funcs["splitRing"] == nil || len(x.Args) != 4 {
 				return sgVal{}, fmt.Errorf("unsupported call of splitRing")
 			}
@@ -619,7 +633,7 @@ func (g *sg) call(env *sgEnv, x *ast.CallExpr, binds *[]string) (sgVal, error) {
 				return sgVal{}, fmt.Errorf("splitRing: unsupported arguments")
 			}
 			t := g.fresh("t")
-			*binds = append(*binds, fmt.Sprintf("do %s <- splitRing %s %s isMulti;", t, r.code, o.code))
+			*binds = append(*binds, fmt.Sprintf("do %s <- gen_splitRing %s %s isMulti;", t, r.code, o.code))
 			return sgVal{code: t, ty: stSets}, nil
 		}
 	}
@@ -780,7 +794,7 @@ func sgAssigned(stmts []ast.Stmt, acc map[string]bool) {
 						}
 						return true
 					}
-					if sel, ok := c.Fun.(*ast.SelectorExpr); ok && sel.Sel.Name == "Insert" { // X.Insert(k, v) changes X
+					if sel, ok := c.Fun.(*ast.SelectorExpr); ok && (sel.Sel.Name == "Insert" || sgWalkMutators[sel.Sel.Name]) { // X.Insert(k, v) changes X
 						target(sel.X)
 						return true
 					}
@@ -936,6 +950,9 @@ func (g *sg) stmts(env *sgEnv, list []ast.Stmt, k lcont, ctx *sgCtx) (string, er
 		}
 		return sgJoin(lines, body), nil
 	case *ast.RangeStmt:
+		if g.splitWalk && walkHasIndexVar(s) {
+			return g.walkIndexRange(env, s, after(env), ctx)
+		}
 		return g.rangeLoop(env, s, after(env), ctx)
 	case *ast.BranchStmt:
 		if s.Tok == token.CONTINUE && s.Label == nil {
@@ -970,6 +987,9 @@ func (g *sg) stmts(env *sgEnv, list []ast.Stmt, k lcont, ctx *sgCtx) (string, er
 	case *ast.ExprStmt:
 		return g.callStmt(env, s, rest, k, ctx)
 	case *ast.IfStmt:
+		if s.Init != nil && g.splitWalk {
+			return g.walkIfInit(env, s, after(env), ctx)
+		}
 		if s.Init != nil {
 			return "", fmt.Errorf("unsupported if with init")
 		}
@@ -1005,6 +1025,11 @@ func (g *sg) stmts(env *sgEnv, list []ast.Stmt, k lcont, ctx *sgCtx) (string, er
 		c2.inSwitch = true
 		return g.branch(env, conds, bodies, def, after(env), &c2)
 	case *ast.ForStmt:
+		if s.Init != nil && g.splitWalk {
+			if out, handled, err := g.walkPairLoop(env, s, after(env), ctx); handled {
+				return out, err
+			}
+		}
 		if s.Init != nil { // for init; cond; post {}  =  init; for ; cond; post {}  (the loop variable stays declared)
 			as, ok := s.Init.(*ast.AssignStmt)
 			if !ok || as.Tok != token.DEFINE {
@@ -1024,6 +1049,18 @@ func (g *sg) callStmt(env *sgEnv, s *ast.ExprStmt, rest []ast.Stmt, k lcont, ctx
 	c, ok := s.X.(*ast.CallExpr)
 	if !ok {
 		return "", fmt.Errorf("unsupported expression statement")
+	}
+	if g.splitWalk {
+		if line, handled, err := g.walkCallStmt(env, c); handled {
+			if err != nil {
+				return "", err
+			}
+			body, err := g.stmts(env, rest, k, ctx)
+			if err != nil {
+				return "", err
+			}
+			return line + "\n  " + body, nil
+		}
 	}
 	if g.dedup {
 		if line, handled, err := g.dedupStmt(env, c); handled {
@@ -1103,12 +1140,24 @@ func (g *sg) assign(env *sgEnv, s *ast.AssignStmt, rest []ast.Stmt, k lcont, ctx
 	if s.Tok != token.DEFINE && s.Tok != token.ASSIGN {
 		return "", fmt.Errorf("unsupported assignment operator %s", s.Tok)
 	}
+	if g.splitWalk {
+		if lines, env3, handled, err := g.walkDefine(env, s); handled {
+			if err != nil {
+				return "", err
+			}
+			body, err := g.stmts(env3, rest, k, ctx)
+			if err != nil {
+				return "", err
+			}
+			return sgJoin(lines, body), nil
+		}
+	}
 	if len(s.Lhs) != len(s.Rhs) {
 		return "", fmt.Errorf("unsupported assignment of a multi-valued expression")
 	}
 	// v = append(v, x)
 	if c, ok := s.Rhs[0].(*ast.CallExpr); ok && len(s.Rhs) == 1 {
-		if f, ok := c.Fun.(*ast.Ident); ok && f.Name == "append" {
+		if f, ok := c.Fun.(*ast.Ident); ok && f.Name == "append" && !g.splitWalk { // splitWalk: append is an expression (walkCall)
 			if _, shadow := env.vars["append"]; !shadow {
 				t, ok1 := s.Lhs[0].(*ast.Ident)
 				var a0 *ast.Ident
